@@ -358,19 +358,28 @@ def rule_H2(ctx):
                 r.fail(f.key, d, f"format table lengths {sorted(keys)} differ from registry allowed_lengths {sorted(ref)}", loc=f.loc(d) if hasattr(d, 'lineno') else f.loc())
             else:
                 r.ok(ast.unparse(d))
-    sf = m.funcs.get('bits:Bits._setfloat')
-    if sf is None:
-        raise AnalysisError('anchor vanished: Bits._setfloat')
-    lists = [n for n in own_walk(sf.node) if isinstance(n, ast.Compare) and isinstance(n.ops[0], (ast.NotIn, ast.In))
-             and isinstance(n.comparators[0], (ast.List, ast.Tuple, ast.Set))]
-    if not lists:
-        raise AnalysisError('Bits._setfloat: accepted-length list not recognised (needs a human)')
-    for n in lists:
-        vals = [fold(e) for e in n.comparators[0].elts]
-        if set(vals) != set(ref):
-            r.fail(sf.key, n, f"accepted lengths {vals} differ from registry allowed_lengths {sorted(ref)}", loc=sf.loc(n))
-        else:
-            r.ok(n)
+    # accepted lengths of the float setters: in the setter itself or in the shared method it delegates to
+    for nm in ('float', 'floatle'):
+        e = next((x for x in m.registry if x['name'] == nm), None)
+        sf0 = m.func_by_dotted(e['set_fn']) if e and e['set_fn'] else None
+        if sf0 is None:
+            raise AnalysisError(f"anchor vanished: setter of '{nm}'")
+        cands = [sf0]
+        for c in own_walk(sf0.node):
+            if isinstance(c, ast.Call) and isinstance(c.func, ast.Attribute) and isinstance(c.func.value, ast.Name) and c.func.value.id == 'self':
+                kind, p = m.lookup('Bits', c.func.attr)
+                if kind == 'method' and len(p) == 1 and p[0] not in cands:
+                    cands.append(p[0])
+        lists = [(g, n) for g in cands for n in own_walk(g.node) if isinstance(n, ast.Compare) and isinstance(n.ops[0], (ast.NotIn, ast.In))
+                 and isinstance(n.comparators[0], (ast.List, ast.Tuple, ast.Set))]
+        if not lists:
+            raise AnalysisError(f'{sf0.key}: accepted-length list not recognised (needs a human)')
+        for g, n in lists:
+            vals = [fold(x) for x in n.comparators[0].elts]
+            if set(vals) != set(ref):
+                r.fail(g.key, n, f"accepted lengths {vals} differ from registry allowed_lengths {sorted(ref)}", loc=g.loc(n))
+            else:
+                r.ok(n)
     return r
 
 
